@@ -217,14 +217,15 @@ func (e *Exec) applyContract(fr *frame, st *State, ci ssa.CallInstruction, calle
 	env := &specEnv{goal: true, into: st, st: st, old: pre, vars: vars, oldVars: vars, pkg: pkgOf(callee)}
 	cname := fnName(fr.fn)
 	for _, rq := range sp.Requires {
-		g, err := e.evalSpecBool(rq.Expr, env)
-		if err != nil {
-			e.errorf("%s: requires %s of %s: %v", cname, rq.Label, sp.Name, err)
-			continue
-		}
 		props := rq.Props
 		if len(props) == 0 {
 			props = e.propsFor(fr, "safety")
+		}
+		g, err := e.evalSpecBool(rq.Expr, env)
+		if err != nil {
+			e.notes = appendUnique(e.notes, fmt.Sprintf("%s: requires %s of %s: %v", cname, rq.Label, sp.Name, err))
+			e.oblige(st, fmt.Sprintf("%s/call-pre:%s:%s", cname, sp.Name, rq.Label), props, BoolLit(false), fmt.Sprintf("contract clause cannot be evaluated at this call: %v", err))
+			continue
 		}
 		e.oblige(st, fmt.Sprintf("%s/call-pre:%s:%s", cname, sp.Name, rq.Label), props, g, e.ld.pos(ci.Pos()))
 		st.pc = append(st.pc, g)
@@ -265,7 +266,8 @@ func (e *Exec) applyContract(fr *frame, st *State, ci ssa.CallInstruction, calle
 	for _, en := range sp.Ensures {
 		g, err := e.evalSpecBool(en.Expr, env2)
 		if err != nil {
-			e.errorf("%s: ensures %s of %s: %v", cname, en.Label, sp.Name, err)
+			// cannot be assumed: the caller simply knows less
+			e.notes = appendUnique(e.notes, fmt.Sprintf("%s: ensures %s of %s not assumed: %v", cname, en.Label, sp.Name, err))
 			continue
 		}
 		st.pc = append(st.pc, g)
